@@ -84,6 +84,23 @@ DoCopyRange(fs, fdin, fdout, n) ==
   IF fdin \notin DOMAIN fs.fds \/ fdout \notin DOMAIN fs.fds THEN fs
   ELSE LET i == fs.fds[fdin] IN
        DoRead(DoWrite(fs, fdout, SubSeq(fs.data[i.ino], i.off + 1, i.off + n)), fdin, n)
+\* pwrite(2): like write at an explicit offset, the descriptor's position does not move
+DoPWrite(fs, fd, chunk, off) ==
+  IF fd \notin DOMAIN fs.fds THEN fs
+  ELSE LET d == fs.fds[fd]
+           old == fs.data[d.ino]
+           pad == IF off > Len(old) THEN old \o [i \in 1..(off - Len(old)) |-> 0] ELSE old
+       IN [fs EXCEPT !.data[d.ino] = Overwrite(pad, off, chunk)]
+\* truncate(2)/ftruncate(2) of an inode to n bytes
+TruncIno(fs, ino, n) ==
+  IF ino \notin DOMAIN fs.data THEN fs
+  ELSE LET old == fs.data[ino] IN
+       [fs EXCEPT !.data[ino] = IF n <= Len(old) THEN SubSeq(old, 1, n) ELSE old \o [i \in 1..(n - Len(old)) |-> 0]]
+DoFTruncate(fs, fd, n) == IF fd \notin DOMAIN fs.fds THEN fs ELSE TruncIno(fs, fs.fds[fd].ino, n)
+DoTruncate(fs, p, n) == TruncIno(fs, InodeAt(fs, p), n)
+\* link(2): a second name for the same inode;  rmdir(2)
+DoLink(fs, from, to) == [fs EXCEPT !.names = SetName(@, RealPath(fs, to, FALSE), NodeAt(fs, Real(fs, from, FALSE)))]
+DoRmdir(fs, p) == [fs EXCEPT !.names = DelName(@, RealPath(fs, p, FALSE))]
 DoClose(fs, fd) == [fs EXCEPT !.fds = [d \in (DOMAIN fs.fds) \ {fd} |-> fs.fds[d]]]
 \* unlink(2): the name goes away (the data stays reachable through other names / open descriptors)
 CanUnlink(fs, p) == NodeAt(fs, Real(fs, p, FALSE)).k \in {"f", "l"}
